@@ -5271,12 +5271,17 @@ func readWithRuns(b *Bitmap, data []byte, pos int, keyN uint32) error {
 		switch c.typ() {
 		case containerRun:
 			runCount := binary.LittleEndian.Uint16(data[pos : pos+runCountHeaderSize])
-			c.setRuns((*[0xFFFFFFF]interval16)(unsafe.Pointer(&data[pos+runCountHeaderSize]))[:runCount:runCount])
-			runs := c.runs()
-
-			for o := range runs { // must convert from start:length to start:end :(
+			// must convert from start:length to start:end :( -- on a copy: the
+			// caller's buffer must stay as it is (it may be decoded again, or be a
+			// read-only mapping)
+			fileRuns := (*[0xFFFFFFF]interval16)(unsafe.Pointer(&data[pos+runCountHeaderSize]))[:runCount:runCount]
+			runs := make([]interval16, runCount)
+			copy(runs, fileRuns)
+			for o := range runs {
 				runs[o].last = runs[o].start + runs[o].last
 			}
+			c.setRuns(runs)
+			c.setMapped(false)
 			pos += int((runCount * interval16Size) + runCountHeaderSize)
 		case containerArray:
 			c.setArray((*[0xFFFFFFF]uint16)(unsafe.Pointer(&data[pos]))[:c.N():c.N()])
